@@ -362,6 +362,95 @@ def _flag(y, j, H, M, addsec):
     return fy, fj, hms
 
 
+class SubsetRowCol(Subset):
+    """ROW and COL selected together by integers (as Python ints or as numpy
+    integer scalars, e.g. the result of an argmax or of ll2ij): both origins
+    move, both dimensions stay with length one"""
+
+    def __init__(self, seltype, year=2004):
+        Subset.__init__(self, 'ROW', 'int', R=3, C=3, year=year)
+        self.seltype = seltype
+        self.name = 'subset[ROW=int,COL=int as %s|T2L2R3C3,1h,%d]' % (
+            seltype, year)
+        self.bounds = {'dims': (2, 2, 3, 3), 'window': 'ROW=k, COL=m'}
+
+    def _sel(self, k):
+        return np.int64(int(k)) if self.seltype == 'numpy-int' else k
+
+    def _common(self, f, vals, kr, kc, claim, symbolic):
+        out = f.sliceDimensions(ROW=self._sel(kr), COL=self._sel(kc))
+
+        def one(x):
+            return np.asarray(x, dtype=object).reshape(-1)[0] \
+                if isinstance(x, np.ndarray) else x
+
+        def eq(a_, b_):
+            a_, b_ = one(a_), one(b_)
+            return common.eq_expr(a_, b_) if symbolic else \
+                common.close_expr(a_, b_, 1e-12)
+        fr, fc = int(kr) % self.R, int(kc) % self.C
+        lens = dict((k, len(v)) for k, v in out.dimensions.items())
+        claim('dimension-lengths', z3.BoolVal(
+            lens.get('ROW') == 1 and lens.get('COL') == 1 and
+            lens.get('TSTEP') == self.T and lens.get('LAY') == self.L))
+        claim('XORIG', eq(out.XORIG, vals['xorig'] + fc * vals['xcell']))
+        claim('YORIG', eq(out.YORIG, vals['yorig'] + fr * vals['ycell']))
+
+    def sym(self, ctx, h):
+        sp = self.space()
+        IO = sp.twin('PseudoNetCDF.cmaqfiles._ioapi').ioapi_base
+        sd.YEAR_RANGE = (self.year - 1, self.year + 1)
+        sd.FORK_YEARS = True
+        vals = {'sdate': self.year * 1000 + 100, 'stime': 0,
+                'xorig': ctx.real('xorig'), 'yorig': ctx.real('yorig'),
+                'xcell': ctx.real('xcell', 1), 'ycell': ctx.real('ycell', 1),
+                'attr': 'scalar'}
+        vg = [ctx.real('vg%d' % i) for i in range(self.L + 1)]
+        for p, q in zip(vg[:-1], vg[1:]):
+            ctx.assume(p.e > q.e, check=False)
+        vals['vglvls'] = vg
+        kr = ctx.int('kr', -self.R, self.R - 1)
+        kc = ctx.int('kc', -self.C, self.C - 1)
+        import sys
+        sys.setprofile(sp.profile())
+        try:
+            try:
+                f = build_ioapi(IO, ctx, self.T, self.L, self.R, self.C,
+                                self.tkey, True, vals, True)
+                self._common(f, vals, int(kr), int(kc), h.claim, True)
+            except Exception as ex:
+                h.candidate('raised:' + type(ex).__name__, repr(ex)[:200])
+        finally:
+            sys.setprofile(None)
+
+    def real(self, inputs):
+        import warnings
+        with warnings.catch_warnings():
+            warnings.simplefilter('ignore')
+            from PseudoNetCDF.cmaqfiles._ioapi import ioapi_base as IO
+        fl = lambda k, d=0.0: float(frac_of(inputs.get(k, d)))  # noqa
+        vals = {'sdate': self.year * 1000 + 100, 'stime': 0,
+                'xorig': fl('xorig'), 'yorig': fl('yorig'),
+                'xcell': fl('xcell', 1.0), 'ycell': fl('ycell', 1.0),
+                'vglvls': [fl('vg%d' % i, 1.0 - i / 10.)
+                           for i in range(self.L + 1)], 'attr': 'scalar'}
+        viol = {}
+
+        def claim(label, e):
+            if not z3.is_true(z3.simplify(e)):
+                viol[label] = 'referencing differs (%s)' % label
+        kr, kc = _g(inputs, 'kr'), _g(inputs, 'kc')
+        try:
+            with warnings.catch_warnings():
+                warnings.simplefilter('ignore')
+                f = build_ioapi(IO, None, self.T, self.L, self.R, self.C,
+                                self.tkey, False, vals, True)
+                self._common(f, vals, kr, kc, claim, False)
+        except Exception as ex:
+            viol['raised:' + type(ex).__name__] = repr(ex)[:200]
+        return {'obs': {}, 'violations': viol, 'window': (kr, kc)}
+
+
 def obligations(tier):
     obs = []
     years = (2003, 2004) if tier == 'quick' else (1999, 2000, 2003, 2004)
@@ -384,4 +473,6 @@ def obligations(tier):
                     obs.append(Subset(dim, kind, R=3 if dim == 'ROW' else 2,
                                       C=3 if dim == 'COL' else 2,
                                       year=years[-1], attr='array'))
+    for seltype in ('int', 'numpy-int'):
+        obs.append(SubsetRowCol(seltype, years[-1]))
     return obs
